@@ -9,7 +9,7 @@ def run(ctx, chk):
              '(both configurations)', floor=2)
     chk.rule('C18.2', 'D', 'set_control writes iff bit 7 of the value is set; payload is the data latch; '
              'flush follows; results discarded', floor=2)
-    chk.rule('C18.3', 'D', 'set_data only stores the latch', floor=1)
+    chk.rule('C18.3', 'D', 'set_data only stores the latch, and nothing else writes it (a transfer leaves SB as it is)', floor=2)
     chk.rule('C18.4', 'D', 'I/O offsets 1/2 (and only those) route to set_data/set_control; IO::set_byte is '
              'reached only from memory_write_byte', floor=3)
     for cfg in ('default', 'jit'):
@@ -107,6 +107,15 @@ def run(ctx, chk):
         else:
             chk.fail('C18.3', 'set_data:path%d' % i, 'set_data does more than store the latch: %s'
                      % [(e[0], e[1]) for e in r.state.events], file, line)
+    # the latch is SB: it changes only when the guest writes SB (a transfer does not consume or alter it)
+    OWN = 'devices::serial::SerialComms'
+    lw = sorted(set(w[0] for w in prog.field_stores(OWN, 'latch')))
+    okw = families(prog, [OWN + '::new', SET_DATA])
+    if lw and set(lw) <= okw:
+        chk.ok('C18.3', 'latch-writers', sample={'latch writers': lw})
+    else:
+        chk.fail('C18.3', 'latch-writers', 'the data latch (SB) is written in %s: a byte written once to SB is not what every '
+                 'later transfer sends' % [w_ for w_ in lw if w_ not in okw], 'src/devices/serial.rs', None)
     # ---- rule 4: routing
     iofam = private_family(prog, IO_SET)
     setters = [n for n in prog.fns if n.startswith('devices::') and n not in iofam]
